@@ -60,6 +60,16 @@ theorem skel_Swap_guard : (Gen.skel_Swap.dropWhile (· ≠ "nut11.ProofsSigAll")
 /-- `MeltTokens`: verifyProofs, then the ProofsSigAll refusal, before the proofs are marked pending (`meltSpendCheck`). -/
 theorem skel_MeltTokens : (spendCalls Gen.skel_MeltTokens).take 3 = ["verifyProofs", "nut11.ProofsSigAll", "db.AddPendingProofs"] := by decide
 
+/-- the wallet's use of the signing helpers: what an honest holder sends is what the helpers write, inputs first,
+    then (under a condition: SIG_ALL) the outputs, then the swap request -/
+def helperCalls (sk : List String) : List String :=
+  sk.filter fun s => s = "nut11.AddSignatureToInputs" ∨ s = "nut11.AddSignatureToOutputs" ∨ s = "nut14.AddWitnessHTLC"
+    ∨ s = "nut14.AddWitnessHTLCToOutputs" ∨ s = "swap"
+
+theorem wskel_ReceiveHTLC : helperCalls Gen.wskel_ReceiveHTLC = ["nut14.AddWitnessHTLC", "nut14.AddWitnessHTLCToOutputs", "swap"] := by decide
+theorem wskel_Receive : helperCalls Gen.wskel_Receive = ["nut11.AddSignatureToInputs", "nut11.AddSignatureToOutputs", "swap"] := by decide
+theorem wskel_swapToTrusted : helperCalls Gen.wskel_swapToTrusted = ["nut11.AddSignatureToOutputs", "swap"] := by decide
+
 /-! ## 3. the three marked lines -/
 
 /-- F6: is `pubkeysCopy = slices.Delete(…)` guarded by `if len(pubkeysCopy) > 1` in the source? -/
